@@ -220,7 +220,10 @@ Ambiguous production number prediction
                 break;
             }
         }
-        Ok(result_union.into_inner())
+        let mut result = result_union.into_inner();
+        // The united automaton needs the lookahead size of the deeper one
+        result.k = std::cmp::max(result.k, other.k);
+        Ok(result)
     }
 
     fn new_state(&mut self) -> StateIndex {
